@@ -15,9 +15,22 @@ fn clampc(c: i128) -> i128 {
     if c == i128::MIN { -MAXC } else { c }
 }
 
+/// 2^i * 5^j * m (m odd, small) with exponents over the whole range that fits: sparse bit / digit patterns
+/// (zero limbs in products and quotients, exact wide divisions, quotients that are multiples of 2^64)
+pub fn pow25(r: &mut Rng) -> i128 {
+    let j = match r.below(3) { 0 => 0, 1 => r.below(20) as u32, _ => r.below(55) as u32 };
+    let m: i128 = match r.below(3) { 0 => 1, 1 => 1 + 2 * r.below(8) as i128, _ => 1 + 2 * r.below(512) as i128 };
+    let base = 5_i128.pow(j).saturating_mul(m);
+    if base >= MAXC / 2 { return 5_i128.pow(j.min(54)); }
+    let room = 126 - (128 - base.leading_zeros()) as u64;      // base * 2^room < 2^127
+    let i = match r.below(3) { 0 => room, 1 => r.below(room + 1), _ => room.saturating_sub(r.below(8)) };
+    base << i
+}
+
 /// class-biased coefficient, |c| <= 2^127-1
 pub fn coeff(r: &mut Rng) -> i128 {
-    let c: i128 = match r.below(16) {
+    let c: i128 = match r.below(18) {
+        16 | 17 => pow25(r),
         0 => 0,
         1 => r.range(-3, 3) as i128,
         2 => r.below(200) as i128,
